@@ -117,6 +117,15 @@ func fullName(f *ssa.Function) string {
 // callStatic calls a statically known function: library spec, contract (modular) or inlining.
 func (e *Engine) callStatic(st *State, fn *ssa.Function, args []Val, bindings []Val, pos token.Pos, k Kont) {
 	name := fullName(fn)
+	e.checkCallSites(st, FuncKey(fn), fn.Signature, nil, args, pos)
+	if len(st.Frames) == 1 && st.top().Contract != nil && st.top().Contract.CutAfter == FuncKey(fn) {
+		inner := k
+		e.Assumed["function "+e.cur.Key+" is verified only up to its call of "+FuncKey(fn)+" (cutafter): the remainder of its body is out of scope"] = true
+		k = func(st2 *State, res Val) {
+			_ = inner
+			e.pathEnd()
+		}
+	}
 	if h, ok := libSpecs[name]; ok {
 		e.Assumed["library spec: "+name] = true
 		h(e, st, fn, args, pos, k)
@@ -225,6 +234,7 @@ func (e *Engine) invoke(st *State, c *ssa.CallCommon, recv Val, args []Val, pos 
 	it := c.Value.Type()
 	iname := ifaceName(it)
 	full := iname + "." + c.Method.Name()
+	e.checkCallSites(st, full, c.Signature(), it, append([]Val{recv}, args...), pos)
 	if h, ok := libIface[full]; ok {
 		e.Assumed["interface spec: "+full] = true
 		h(e, st, c, recv, args, pos, k)
@@ -756,4 +766,45 @@ func (e *Engine) copyOut(st *State) {
 		e.storePx(st, &px, c.T, v)
 	}
 	e.copies = nil
+}
+
+// checkCallSites emits the call-site obligations of the current frame's contract for this callee.
+func (e *Engine) checkCallSites(st *State, calleeKey string, sig *types.Signature, recvIface types.Type, args []Val, pos token.Pos) {
+	if len(st.Frames) == 0 {
+		return
+	}
+	fr := st.top()
+	if fr.Contract == nil || len(fr.Contract.CallSites) == 0 {
+		return
+	}
+	for i := range fr.Contract.CallSites {
+		cs := &fr.Contract.CallSites[i]
+		if cs.Callee != calleeKey {
+			continue
+		}
+		cs.Hits++
+		names, typs := sigParams(sig, recvIface)
+		env := map[string]specBind{}
+		// the enclosing function's parameters (entry values) first, the callee's parameters shadow them
+		on, ot := sigParams(fr.Fn.Signature, nil)
+		for j := range on {
+			if j < len(fr.Params) {
+				env[on[j]] = specBind{fr.Params[j], ot[j]}
+			}
+		}
+		for j := range names {
+			if j < len(args) {
+				env[names[j]] = specBind{args[j], typs[j]}
+			}
+		}
+		off := len(names) - sig.Params().Len()
+		for j := 0; j < sig.Params().Len(); j++ {
+			env[fmt.Sprintf("arg%d", j)] = env[names[off+j]]
+		}
+		if off == 1 {
+			env["recv"] = env[names[0]]
+		}
+		sc := &specCtx{e: e, st: st, heap: st.Heap, oldHeap: e.entryHeap, oldAlloc: e.entryAlloc, env: env, pkg: e.specPkg(fr.Contract), frame: fr}
+		e.oblige(st, "callsite", calleeKey, pos, e.evalClause(sc, cs.Clause), "call-site obligation for "+calleeKey+": "+cs.Clause.Src)
+	}
 }
